@@ -642,3 +642,57 @@ M("c05-async-gather-return-exceptions", "C05", ["C05.sibling", "C14.collect"],
             ),
             return_exceptions=True,
         )"""), note="exceptions of async callbacks would be returned as results instead of raised")
+
+# ----------------------------------------------------------------------------------------- C07
+M("c07-no-reserved-filter", "C07", ["C07.reserved"],
+  E(EV, "        kwargs = {k: v for k, v in kwargs.items() if k not in _event_data_kwargs}\n", ""),
+  note="properties.jsonl: verified to pass all 348 tests")
+M("c07-reserved-table-misses-source", "C07", ["C07.reserved"],
+  E(EV, '    "source",\n', ""))
+M("c07-builtins-before-user-kwargs", "C07", ["C07.layer"],
+  E(ED, """        kwargs = self.trigger_data.kwargs.copy()
+        kwargs["event_data"] = self""", """        kwargs = {}
+        kwargs["event_data"] = self"""),
+  E(ED, """        kwargs["target"] = self.target
+        return kwargs""", """        kwargs["target"] = self.target
+        kwargs.update(self.trigger_data.kwargs)
+        return kwargs"""))
+M("c07-extended-kwargs-no-copy", "C07", ["C07.layer"],
+  E(ED, "        kwargs = self.trigger_data.kwargs.copy()", "        kwargs = self.trigger_data.kwargs"),
+  note="built-ins leak into the TriggerData kwargs shared by later candidate transitions")
+M("c07-f5-reintroduced", "C07", ["C07.consume"],
+  E(SIG, """                        # 'too many positional arguments' forgiven, but the parameter
+                        # can still be filled by a keyword argument.
+                        parameters_ex = (param,)
+                        break""", """                        # 'too many positional arguments' forgiven
+                        break"""), note="F5")
+M("c07-f6-reintroduced", ["C07", "C16"], ["C07.cachekey", "C16.cachekey"],
+  E(SIG, """                method.__code__,
+            )""", """                method.__code__.co_varnames,
+            )"""),
+  E(SIG, "return hash((method.__qualname__, method.__code__))", "return hash((method.__qualname__, method.__code__.co_varnames))"), note="F6")
+M("c07-adapter-drops-kwargs", "C07", ["C07.adapter"],
+  E(DISP, """            ba = sig_bind_expected(*args, **kwargs)
+            return a_callable(*ba.args, **ba.kwargs)""", """            ba = sig_bind_expected(*args, **kwargs)
+            return a_callable(*ba.args)"""))
+M("c07-search-name-bypasses-adapter", "C07", ["C07.adapter"],
+  E(DISP, "            yield key, partial(callable_method, func)\n\n\ndef callable_method", "            yield key, partial(event_method, func)\n\n\ndef callable_method"))
+M("c07-extra-raise-too-many-positional", "C07", ["C07.raise"],
+  E(SIG, """                except StopIteration:
+                    # raise TypeError('too many positional arguments') from None
+                    break""", """                except StopIteration:
+                    raise TypeError('too many positional arguments') from None"""))
+M("c07-varkw-in-positional-phase-dropped", "C07", ["C07.consume"],
+  E(SIG, """                    if param.kind == Parameter.VAR_KEYWORD:
+                        # Memorize that we have a '**kwargs'-like parameter
+                        kwargs_param = param
+                        break
+
+                    if param.kind == Parameter.KEYWORD_ONLY:""", """                    if param.kind == Parameter.VAR_KEYWORD:
+                        break
+
+                    if param.kind == Parameter.KEYWORD_ONLY:"""))
+M("c07-keyword-phase-skips-kwonly", "C07", ["C07.consume"],
+  E(SIG, """            if param.kind == Parameter.VAR_POSITIONAL:
+                # Named arguments don't refer to '*args'-like parameters.""", """            if param.kind in (Parameter.VAR_POSITIONAL, Parameter.KEYWORD_ONLY):
+                # Named arguments don't refer to '*args'-like parameters."""))
